@@ -31,4 +31,8 @@ class QueueStream:
         if self.oneAtATime:
             return self.queue.get_nowait()
 
-        return [e for _ in range(q_size) for e in self.queue.get_nowait()]
+        # everything queued at once: queued items may be lists or datasets
+        batches = [self.queue.get_nowait() for _ in range(q_size)]
+        return [e
+                for batch in batches
+                for e in (batch.toLocalIterator() if isinstance(batch, RDD) else batch)]
